@@ -894,6 +894,9 @@ class Interp(object):
                 return STDLIB_CONSTS[k]
             return UnknownMethod(base, attr, '%s.%s' % (base.name, attr))
         if isinstance(base, Native):
+            if type(base).get_attr is Native.get_attr:
+                # a native that models no data attributes: what is read off it is one of its methods, as a value (`write = w.write_uint`)
+                return NativeMethod(base, attr)
             v = base.get_attr(attr, self, frame)
             if v is Native.get_attr:
                 return NativeMethod(base, attr)
